@@ -314,6 +314,41 @@ def multicall(ctx, c, rng):
     judge_exchange(ctx, c, case, out, ran, expected_calls, planned, hmark, bmark, "multicall")
 
 
+def multicall_late_job(ctx, c, rng):
+    """A call queued on a MultiCall object while a batch of that very object is being exchanged (by the application code
+    that runs during the exchange: here a hook of the in-process transport) belongs to the next batch: it is invoked
+    exactly once, neither dropped nor sent twice."""
+    import jsonrpclib
+    if c.cell[1] != "bare":
+        return
+    fx = c.fx
+    mc = jsonrpclib.MultiCall(c.proxy)
+    first = "f"
+    late_args = ["late", rng.randrange(1000)]
+    c.planned.clear()
+    c.planned.extend([1, 2, 3])
+    mark = fx.log.mark()
+    case = {"cell": list(c.cell), "style": "multicall-late-job", "late_args": late_args}
+    ctx.case((c.cell, "multicall-late-job", tuple(late_args)), nontrivial=True)
+    ctx.count("judged:multicall-late-job")
+    try:
+        getattr(mc, first)(0)
+        c.transport.during = lambda: mc.add(*late_args)
+        r1 = list(mc())
+        r2 = mc()
+        r2 = list(r2) if r2 is not None else []
+    except BaseException as ex:  # noqa
+        ctx.violate("multicall:late-job:raised-%s" % type(ex).__name__, case, {"raised": ex})
+        return
+    finally:
+        c.transport.during = None
+    ran = [(i[0], gen.jn(i[1])) for i in fx.log.since(mark)]
+    late_runs = [r for r in ran if r[0] == "add"]
+    if len(late_runs) != 1 or len(r1) + len(r2) != 2:
+        ctx.violate("multicall:call-queued-during-an-exchange:executed-%d-time(s)" % len(late_runs), case,
+                    {"ran": ran, "results_first_batch": r1, "results_second_batch": r2})
+
+
 def multicall_method_reuse(ctx, c, rng):
     """The object returned by one attribute access on a batch is CALLED twice (m = batch.f; m(1); m(2)): two calls."""
     import jsonrpclib
@@ -356,6 +391,7 @@ def run(ctx):
                     single_call(ctx, c, rng, name, "chain")
             for i in range(3):
                 multicall_method_reuse(ctx, c, rng)
+                multicall_late_job(ctx, c, rng)
             for i in range(per):
                 r = rng.random()
                 if r < 0.7:
